@@ -85,6 +85,10 @@ def gen_cases(run, thorough):
                     if l > (1 << 20) + 1 and (q >= 10 and kind == "t"):
                         continue
                     cases.append("C %s %d %d %d %s:%d:%d B" % (rng.choice("RF"), q, lg, rng.choice([0, 1]), kind, l, rng.randrange(1, 1000)))
+    # fragments longer than one meta-block (2^24) at quality 0/1 with a large window
+    for q in (0, 1):
+        for kind in "rt":
+            cases.append("C %s %d 30 0 %s:%d:%d B" % (rng.choice("RF"), q, kind, (1 << 24) + 1 + rng.randrange(0, 5), rng.randrange(1, 1000)))
     # short inputs: every buffer size from 0 to beyond the bound
     for l in (0, 1, 2, 3, 17):
         for q in (0, 1, 2, 5, 9, 10, 11):
